@@ -58,7 +58,12 @@ def spectral_clustering(H, k=2, max_iter=1_000, seed=None):
     # Compute normalize Laplacian and its spectra
     L, rowdict = normalized_hypergraph_laplacian(H, index=True)
     v0 = None if seed is None else np.random.default_rng(seed).random(L.shape[0])
-    evals, eigs = eigsh(L, k=k, which="SA", v0=v0)
+    try:
+        # scipy >= 1.17: ARPACK also draws its restart vectors from `rng`
+        rng = None if seed is None else np.random.default_rng(seed)
+        evals, eigs = eigsh(L, k=k, which="SA", v0=v0, rng=rng)
+    except TypeError:
+        evals, eigs = eigsh(L, k=k, which="SA", v0=v0)
 
     # Form metric space representation
     X = np.array(eigs)
